@@ -45,9 +45,59 @@ pub struct Obs {
     pub sop: Vec<Vec<SV>>,
     pub strict: bool,
     pub keep: bool,
+    /// raw strings (back-end view) the toolkit's validators reject: `i.<hex>` IRI, `d.<hex>` datatype,
+    /// `b.<hex>` blank node label, `l.<hex>` language tag, `v.<hex>` variable name (first few)
+    pub bad: Vec<String>,
+    /// how many terms went through the extended sweep (eq / cmp / hash / into_term / constituents / atoms)
+    pub extra_swept: usize,
 }
 
 impl Obs {
+    fn note_bad(&mut self, tag: char, s: &str) {
+        let e = format!("{}.{}", tag, vhcore::util::hex(s));
+        if self.bad.len() < 6 && !self.bad.contains(&e) {
+            self.bad.push(e);
+        }
+    }
+    /// validate the raw (back-end) strings of a statement with the toolkit's validators
+    pub fn check_raw(&mut self, r: &R) {
+        match r {
+            R::I(s) => {
+                let ok = if self.strict { Iri::new(s.as_str()).is_ok() } else { IriRef::new(s.as_str()).is_ok() };
+                if !ok {
+                    self.note_bad('i', s);
+                }
+            }
+            R::B(s) => {
+                if BnodeId::new(s.as_str()).is_err() {
+                    self.note_bad('b', s);
+                }
+            }
+            R::V(s) => {
+                if VarName::new(s.as_str()).is_err() {
+                    self.note_bad('v', s);
+                }
+            }
+            R::L(_, dt, lang) => {
+                if let Some(d) = dt {
+                    // rio/src/model.rs `datatype` asserts Iri::new, for the generalized parsers too
+                    if Iri::new(d.as_str()).is_err() {
+                        self.note_bad('d', d);
+                    }
+                }
+                if let Some(l) = lang {
+                    if LanguageTag::new(l.as_str()).is_err() {
+                        self.note_bad('l', l);
+                    }
+                }
+            }
+            R::T(spo) => {
+                for x in spo.iter() {
+                    self.check_raw(x);
+                }
+            }
+        }
+    }
     fn fail(&mut self, s: String) {
         if self.fails.len() < 16 && !self.fails.contains(&s) {
             self.fails.push(s);
@@ -166,6 +216,12 @@ pub fn sweep<T: Term>(t: &T, obs: &mut Obs, depth: usize) -> SV {
         };
         sv.dt = dt.clone().flatten();
         sv.lang = lang.clone().flatten();
+        if !sv.panicked && depth < 8 {
+            // what downstream code does with a yielded term, beyond the accessors: compare it, hash it,
+            // copy it, walk it.  Only for terms whose accessors all returned (a panic above would repeat here).
+            obs.extra_swept += 1;
+            extra_sweep(t, obs);
+        }
         if k == TermKind::Triple && depth < 300 {
             // constituents, recursively
             let r = catch(AssertUnwindSafe(|| {
@@ -186,6 +242,48 @@ pub fn sweep<T: Term>(t: &T, obs: &mut Obs, depth: usize) -> SV {
         }
     }
     sv
+}
+
+fn extra_sweep<T: Term>(t: &T, obs: &mut Obs) {
+    use sophia_api::term::SimpleTerm;
+    use std::hash::Hasher;
+    if let Some(e) = acc("eq", obs, || Term::eq(t, t.borrow_term())) {
+        if !e {
+            obs.fail("inconsistent.eq".into());
+        }
+    }
+    if let Some(c) = acc("cmp", obs, || Term::cmp(t, t.borrow_term())) {
+        if c != std::cmp::Ordering::Equal {
+            obs.fail("inconsistent.cmp".into());
+        }
+    }
+    acc("hash", obs, || {
+        let mut h = std::collections::hash_map::DefaultHasher::new();
+        Term::hash(t, &mut h);
+        h.finish()
+    });
+    if let Some(e) = acc("into_term", obs, || {
+        let c: SimpleTerm = t.borrow_term().into_term();
+        Term::eq(&c, t.borrow_term()) && Term::eq(t, c.borrow_term())
+    }) {
+        if !e {
+            obs.fail("inconsistent.into_term".into());
+        }
+    }
+    if let Some((nc, na, is_t)) = acc("constituents", obs, || (t.constituents().count(), t.atoms().count(), t.is_triple())) {
+        if nc < na || na == 0 || (!is_t && (nc != 1 || na != 1)) {
+            obs.fail("inconsistent.constituents".into());
+        }
+    }
+    let flags = [t.is_iri(), t.is_blank_node(), t.is_literal(), t.is_variable(), t.is_triple()];
+    if flags.iter().filter(|x| **x).count() != 1 {
+        obs.fail("inconsistent.is_kind".into());
+    }
+    if let Some(x) = acc("to_triple", obs, || t.borrow_term().to_triple().is_some()) {
+        if x != t.is_triple() {
+            obs.fail("inconsistent.to_triple".into());
+        }
+    }
 }
 
 fn drive<S: Source>(mut src: S, obs: &mut Obs, limit: usize, mut f: impl for<'x> FnMut(S::Item<'x>, &mut Obs)) {
@@ -219,13 +317,30 @@ fn drive<S: Source>(mut src: S, obs: &mut Obs, limit: usize, mut f: impl for<'x>
     }
 }
 
+fn keep_raw(obs: &mut Obs, v: Vec<R>, svs: Vec<SV>) {
+    for r in &v {
+        obs.check_raw(r);
+    }
+    if obs.keep && obs.raw.len() < 8 {
+        obs.raw.push(v);
+        obs.sop.push(svs);
+    }
+}
+
+fn same_kinds<A: Term, B: Term>(a: &[A], b: &[B]) -> bool {
+    a.len() == b.len() && a.iter().zip(b.iter()).all(|(x, y)| x.kind() == y.kind())
+}
+
 fn on_triple(t: Trusted<rm::Triple>, obs: &mut Obs) {
     use sophia_api::triple::Triple;
     let svs = vec![sweep(&t.s(), obs, 0), sweep(&t.p(), obs, 0), sweep(&t.o(), obs, 0)];
-    if obs.keep && obs.raw.len() < 8 {
-        obs.raw.push(vec![raw_subject(t.0.subject), R::I(t.0.predicate.iri.into()), raw_term(t.0.object)]);
-        obs.sop.push(svs);
+    // the consuming views must be the same terms
+    match catch(AssertUnwindSafe(|| same_kinds(&t.clone().to_spo(), &[t.s(), t.p(), t.o()]))) {
+        Ok(true) => {}
+        Ok(false) => obs.fail("inconsistent.to_spo".into()),
+        Err(_) => obs.fail("panic.to_spo".into()),
     }
+    keep_raw(obs, vec![raw_subject(t.0.subject), R::I(t.0.predicate.iri.into()), raw_term(t.0.object)], svs);
 }
 fn on_quad(q: Trusted<rm::Quad>, obs: &mut Obs) {
     use sophia_api::quad::Quad;
@@ -233,14 +348,19 @@ fn on_quad(q: Trusted<rm::Quad>, obs: &mut Obs) {
     if let Some(g) = q.g() {
         svs.push(sweep(&g, obs, 0));
     }
-    if obs.keep && obs.raw.len() < 8 {
-        let mut v = vec![raw_subject(q.0.subject), R::I(q.0.predicate.iri.into()), raw_term(q.0.object)];
-        if let Some(g) = q.0.graph_name {
-            v.push(raw_graph(g));
-        }
-        obs.raw.push(v);
-        obs.sop.push(svs);
+    match catch(AssertUnwindSafe(|| {
+        let (spo, g) = q.clone().to_spog();
+        same_kinds(&spo, &[q.s(), q.p(), q.o()]) && g.map(|x| x.kind()) == q.g().map(|x| x.kind())
+    })) {
+        Ok(true) => {}
+        Ok(false) => obs.fail("inconsistent.to_spog".into()),
+        Err(_) => obs.fail("panic.to_spog".into()),
     }
+    let mut v = vec![raw_subject(q.0.subject), R::I(q.0.predicate.iri.into()), raw_term(q.0.object)];
+    if let Some(g) = q.0.graph_name {
+        v.push(raw_graph(g));
+    }
+    keep_raw(obs, v, svs);
 }
 fn on_gquad(q: Trusted<rm::GeneralizedQuad>, obs: &mut Obs) {
     use sophia_api::quad::Quad;
@@ -248,14 +368,19 @@ fn on_gquad(q: Trusted<rm::GeneralizedQuad>, obs: &mut Obs) {
     if let Some(g) = q.g() {
         svs.push(sweep(&g, obs, 0));
     }
-    if obs.keep && obs.raw.len() < 8 {
-        let mut v = vec![raw_gterm(q.0.subject), raw_gterm(q.0.predicate), raw_gterm(q.0.object)];
-        if let Some(g) = q.0.graph_name {
-            v.push(raw_gterm(g));
-        }
-        obs.raw.push(v);
-        obs.sop.push(svs);
+    match catch(AssertUnwindSafe(|| {
+        let (spo, g) = q.clone().to_spog();
+        same_kinds(&spo, &[q.s(), q.p(), q.o()]) && g.map(|x| x.kind()) == q.g().map(|x| x.kind())
+    })) {
+        Ok(true) => {}
+        Ok(false) => obs.fail("inconsistent.to_spog".into()),
+        Err(_) => obs.fail("panic.to_spog".into()),
     }
+    let mut v = vec![raw_gterm(q.0.subject), raw_gterm(q.0.predicate), raw_gterm(q.0.object)];
+    if let Some(g) = q.0.graph_name {
+        v.push(raw_gterm(g));
+    }
+    keep_raw(obs, v, svs);
 }
 
 pub const SYNTAXES: &[&str] = &["nt", "nq", "ttl", "trig", "gnq", "gtrig", "xml", "jsonld"];
@@ -264,11 +389,59 @@ pub fn is_strict(syn: &str) -> bool {
     !matches!(syn, "gnq" | "gtrig")
 }
 
+/// JSON-LD parser configurations: `jsonld` is `JsonLdParser::new()`, `jsonld@<opt>` sets one non-default option
+pub const JSONLD_VARIANTS: &[&str] = &[
+    "jsonld@i18n", "jsonld@compound", "jsonld@gen", "jsonld@ordered", "jsonld@base", "jsonld@ctx", "jsonld@v10", "jsonld@strict",
+    "jsonld@relaxed",
+];
+
+pub fn known_syntax(syn: &str) -> bool {
+    SYNTAXES.contains(&syn) || JSONLD_VARIANTS.contains(&syn)
+}
+
+/// the parser family of a (possibly configured) syntax name
+pub fn family(syn: &str) -> &str {
+    syn.split('@').next().unwrap_or(syn)
+}
+
+pub const JSONLD_BASE: &str = "http://example.org/opt/base?q#f";
+pub const JSONLD_CTX: &str = "{\"@context\":{\"@vocab\":\"http://example.org/ctx#\",\"@language\":\"en-GB\",\"c\":\"http://example.org/c/\",\"t\":{\"@id\":\"c:t\",\"@type\":\"@id\"}}}";
+
+fn jsonld_options(syn: &str) -> sophia_jsonld::JsonLdOptions<sophia_jsonld::loader_factory::DefaultLoaderFactory<sophia_jsonld::loader::NoLoader>> {
+    use sophia_jsonld::{JsonLdOptions, Policy, ProcessingMode, RdfDirection};
+    let o = JsonLdOptions::new();
+    match syn {
+        "jsonld@i18n" => o.with_rdf_direction(RdfDirection::I18nDatatype),
+        "jsonld@compound" => o.with_rdf_direction(RdfDirection::CompoundLiteral),
+        "jsonld@gen" => o.with_produce_generalized_rdf(true),
+        "jsonld@ordered" => o.with_ordered(true),
+        "jsonld@base" => o.with_base(Iri::new(std::sync::Arc::<str>::from(JSONLD_BASE)).expect("harness: option base")),
+        "jsonld@ctx" => o.try_with_expand_context(JSONLD_CTX).expect("harness: expand context"),
+        "jsonld@v10" => o.with_processing_mode(ProcessingMode::JsonLd1_0),
+        "jsonld@strict" => o.with_expansion_policy(Policy::Strict),
+        "jsonld@relaxed" => o.with_expansion_policy(Policy::Relaxed),
+        _ => o,
+    }
+}
+
 /// Run parser `syn` on `data` (optionally with a configured base IRI, which must satisfy
 /// `Iri::new`). Panics inside the parser itself propagate to the caller (who runs under `catch`).
 pub fn run(syn: &str, data: &[u8], base: Option<&str>, keep: bool) -> Obs {
+    run_chunked(syn, data, base, keep, None)
+}
+
+/// as `run`; with `chunk = Some(n)` the parser reads through a `BufReader` of capacity `n`, so that
+/// `fill_buf` hands over the input in pieces that split tokens and UTF-8 sequences
+pub fn run_chunked(syn: &str, data: &[u8], base: Option<&str>, keep: bool, chunk: Option<usize>) -> Obs {
+    match chunk {
+        None => run_on(syn, data, data.len(), base, keep),
+        Some(n) => run_on(syn, std::io::BufReader::with_capacity(n.max(1), data), data.len(), base, keep),
+    }
+}
+
+fn run_on<B: std::io::BufRead>(syn: &str, data: B, len: usize, base: Option<&str>, keep: bool) -> Obs {
     let mut obs = Obs { strict: is_strict(syn), keep, ..Default::default() };
-    let limit = data.len() * 4 + 1000;
+    let limit = len * 4 + 1000;
     let base_iri = base.map(|b| Iri::new(b.to_string()).expect("harness: base must be a valid Iri"));
     match syn {
         "nt" => drive(sophia_turtle::parser::nt::NTriplesParser {}.parse(data), &mut obs, limit, on_triple),
@@ -278,8 +451,8 @@ pub fn run(syn: &str, data: &[u8], base: Option<&str>, keep: bool) -> Obs {
         "gnq" => drive(sophia_turtle::parser::gnq::GNQuadsParser {}.parse(data), &mut obs, limit, on_gquad),
         "gtrig" => drive(sophia_turtle::parser::gtrig::GTriGParser { base: base_iri }.parse(data), &mut obs, limit, on_gquad),
         "xml" => drive(sophia_xml::parser::RdfXmlParser { base: base_iri }.parse(data), &mut obs, limit, on_triple),
-        "jsonld" => {
-            let p = sophia_jsonld::JsonLdParser::new();
+        s if family(s) == "jsonld" => {
+            let p = sophia_jsonld::JsonLdParser::new_with_options(jsonld_options(s));
             let src = QuadParser::parse(&p, data);
             drive(src, &mut obs, limit, |q, obs: &mut Obs| {
                 let (spo, g) = q;
